@@ -89,6 +89,50 @@ theorem merge_nothing_dropped (parsed : List Out) (orphan : DMap) (order : List 
   · exact ⟨d, by simp [h], rfl⟩
   · exact ⟨d, by simp [h], rfl⟩
 
+/-! ## the store under update / delete -/
+
+/-- REFINEMENT of `PageDatabase` (as far as diagnostics go) to a last-write-wins map, for EVERY history of
+`db[k] = …`, `set_orphan_diagnostics`, `del db[k]` (history written latest operation first): the page stored under a key
+and the orphan diagnostics recorded for a key are those of the latest operation that named the key; a later `del` forgets
+both. -/
+theorem store_refines_last_write (hist : List Op) (k : FileId) :
+    lookupOut (Store.run hist.reverse).parsed k = specOut hist k ∧
+    (Store.run hist.reverse).orphan.lookup k = specOrphan hist k := run_refines hist k
+
+/-- `del db[k]` forgets: whatever happened before, right after a delete nothing is stored under `k` and no orphan
+diagnostics are recorded for `k` (so `merge_diagnostics` can only report what `others` say about it). -/
+theorem delete_forgets (earlier : List Op) (k : FileId) :
+    lookupOut (Store.run ((Op.del k :: earlier).reverse)).parsed k = none ∧
+    (Store.run ((Op.del k :: earlier).reverse)).orphan.lookup k = none := by
+  have h := run_refines (Op.del k :: earlier) k
+  simpa [specOut, specOrphan] using h
+
+/-- keys of the page dict stay unique under every history (so "the page stored under k" is well defined) -/
+theorem store_keys_unique (ops : List Op) : ((Store.run ops).parsed.map (·.out)).Nodup := run_keys_nodup ops
+
+/-- conservation after ANY history: what `merge_diagnostics` returns for a file is determined by the state the history
+left behind - the outputs currently stored for that source, the orphan diagnostics currently recorded, and the others. -/
+theorem merge_after_history (ops : List Op) (order : List FileId) (others : List DMap)
+    (hn : order.Nodup) (hk : ∀ f, f ∈ order ↔ ∃ o ∈ others, f ∈ keys o) (f : FileId) :
+    mergedAt (mergeDiagnostics (Store.run ops).parsed (Store.run ops).orphan order others) f =
+      parsedUnion (Store.run ops).parsed f ++ getAll (Store.run ops).orphan f ++ extendFrom others f :=
+  merge_exact _ _ _ _ hn hk f
+
+/-- a YAML file whose parse error was recorded as orphan diagnostics, then deleted: nothing is left to merge -/
+example :
+    let hist := [Op.setOrphan "includes/extracts-x.yaml" [⟨"ErrorParsingYAMLFile", 1, 3, 7⟩], Op.set ⟨"index.txt", "index.txt", []⟩,
+                 Op.del "includes/extracts-x.yaml"]
+    mergeDiagnostics (Store.run hist).parsed (Store.run hist).orphan [] [] = [("index.txt", [])] := by decide
+
+/-- … while the early-return variant of `__delitem__` (only when the key is a stored page) would keep it: the witness
+of a seeded change (C14-5) on the model -/
+example :
+    let stepBad : Store → Op → Store := fun s op => match op with
+      | .del k => if (lookupOut s.parsed k).isSome then s.step (.del k) else s
+      | op => s.step op
+    let hist := [Op.setOrphan "includes/extracts-x.yaml" [⟨"ErrorParsingYAMLFile", 1, 3, 7⟩], Op.del "includes/extracts-x.yaml"]
+    (hist.foldl stepBad Store.empty).orphan ≠ (Store.run hist).orphan := by decide
+
 /-- The code before the fix kept only the list of the LAST output of a source … -/
 theorem merge_old_exact (parsed : List Out) (orphan : DMap) (order : List FileId) (others : List DMap)
     (hn : order.Nodup) (hk : ∀ f, f ∈ order ↔ ∃ o ∈ others, f ∈ keys o) (f : FileId) :
